@@ -40,4 +40,23 @@ def scan (nm : Naming) (c : Cfg) (roots : List (Node × Faults)) : ScanOut :=
   if r.err ≠ .none then ⟨r.err, [], []⟩
   else ⟨.none, isort (pkgLt nm) r.pkgs, isort (statusLt nm) r.statuses⟩
 
+/-! ### the glue around the walk: when `Scan` / `filesystem.Run` do not walk at all
+
+`scalibr.Scan` refuses a configuration without scan roots (`errNoScanRoot`) and one that requests specific paths together with
+several roots (`errFilesWithSeveralRoots`); `filesystem.Run` returns an empty, successful result at once when no filesystem
+extractor is enabled (nothing is walked: no inode is counted, limits, faults and a cancelled context never come into play), and
+otherwise refuses — `InitWalkContext` / `stripAllPathPrefixes`, `ErrNotRelativeToScanRoots` — when, with absolute scan roots, a
+requested path or skipped directory lies under none of them.  In this order. -/
+
+inductive Glue | refused | empty | walks
+deriving DecidableEq, Repr
+
+/-- `outside` = (absolute scan roots only) some PathsToExtract / DirsToSkip entry lies under no scan root -/
+def glue (c : Cfg) (nRoots : Nat) (outside : Bool) : Glue :=
+  if nRoots = 0 then .refused
+  else if !c.paths.isEmpty && nRoots > 1 then .refused
+  else if c.nExt = 0 then .empty
+  else if outside then .refused
+  else .walks
+
 end Scalibr.Walk
